@@ -239,7 +239,9 @@ namespace sqf::runtime
         sqf::runtime::instruction_set::iterator peek() const { bool flag; return peek(flag); }
         sqf::runtime::instruction_set::iterator peek(bool& success) const
         {
-            auto pos = m_position >= m_instruction_set.size() ? m_instruction_set.size() - 1 : m_position + 1;
+            // Before the first instruction the position is invalid (the next one is the first),
+            // past the last instruction nothing is left to peek at.
+            auto pos = m_position == position_invalid ? 0 : (m_position >= m_instruction_set.size() ? m_instruction_set.size() : m_position + 1);
             auto it = m_instruction_set.begin() + pos;
             success = it != m_instruction_set.end();
             return it;
